@@ -55,6 +55,23 @@ int main(int argc, char** argv) {
       if (n2 > 0 && U2.cols() == n2 && V2.cols() == n2) { double r = (A * V2 - U2 * s2.head(n2).asDiagonal()).norm(); if (r > 1e-8 * A.norm()) { printf("seed %d tall %d: accessors between two runs: after the second compute() ||A V - U S|| = %g (vectors cached from the first run)\n", seed, tall, r); bad |= 8; } }
     } catch (const EigenAssert& e) { printf("seed %d tall %d: Eigen assertion in matrix_U/V when a later call asks for more vectors: %s\n", seed, tall, e.what()); bad |= 8; }
   }
+  // both runs read both factors; the second run asks for them in either order (a derived factor cached separately from the eigenvectors)
+  if (mode & 1) for (int seed = 0; seed < 8 && !(bad & 16); seed++) for (int tall = 0; tall < 2 && !(bad & 16); tall++) for (int order = 0; order < 2 && !(bad & 16); order++) {
+    std::srand(seed + 401); Eigen::MatrixXd A = tall ? Eigen::MatrixXd::Random(36, 14) : Eigen::MatrixXd::Random(14, 36);
+    try {
+      PartialSVDSolver<Eigen::MatrixXd> svds(A, 4, 9);
+      svds.compute(1000, 1e-2);
+      Eigen::MatrixXd U1 = svds.matrix_U(4), V1 = svds.matrix_V(4);
+      Eigen::Index n2 = svds.compute(1000, 1e-12);
+      Eigen::MatrixXd U2, V2;
+      if (order == 0) { U2 = svds.matrix_U(4); V2 = svds.matrix_V(4); } else { V2 = svds.matrix_V(4); U2 = svds.matrix_U(4); }
+      Eigen::VectorXd s2 = svds.singular_values();
+      if (n2 > 0 && U2.cols() == n2 && V2.cols() == n2) {
+        double r = (A * V2 - U2 * s2.head(n2).asDiagonal()).norm(), r2 = (A.transpose() * U2 - V2 * s2.head(n2).asDiagonal()).norm();
+        if (r > 1e-8 * A.norm() || r2 > 1e-8 * A.norm()) { printf("seed %d tall %d order %s: after the second compute() ||A V - U S|| = %g, ||A'U - V S|| = %g (a factor cached from the first run was returned)\n", seed, tall, order ? "V,U" : "U,V", r, r2); bad |= 16; } }
+      else if (n2 > 0) { printf("seed %d tall %d: %ld / %ld columns for nconv %ld\n", seed, tall, (long)U2.cols(), (long)V2.cols(), (long)n2); bad |= 16; }
+    } catch (const EigenAssert& e) { printf("seed %d tall %d order %d: Eigen assertion: %s\n", seed, tall, order, e.what()); bad |= 16; }
+  }
   if (mode & 2) {
     Eigen::MatrixXd A = Eigen::MatrixXd::Random(10, 6);
     long before = g_live; int threw = 0;
